@@ -233,7 +233,7 @@ Proof.
   - pose proof (rd_keep 8 s) as Hp; destruct (rd 8 s) as [[p [e|]] s1] eqn:E; cbn [snd] in Hp.
     + exact Hp.
     + destruct (2 ^ 63 <=? be_dec p).
-      * exact Hp.
+      * cbn [snd]. eapply keep_trans; [exact Hp|apply send_keep].
       * eapply keep_trans; [exact Hp|apply keep_aas4].
   - apply keep_aas4.
 Qed.
